@@ -38,3 +38,27 @@ def symcoef_jobs(name, ops, tier, seed, extra_configs=()):
                      'job': {'kind': 'symcoef', 'ops': list(ops), 'configs': list(ch) + (list(extra_configs) if i == 0 else []),
                              'seed': seed * 1000 + i}})
     return jobs
+
+
+BINARY_OPS = ('gp', 'op', 'ip', 'lc', 'rc', 'sp', 'cp', 'acp', 'rp', 'add', 'sub')
+UNARY_OPS = ('neg', 'reverse', 'involute', 'conjugate', 'hodge', 'unhodge', 'polarity', 'unpolarity')
+
+
+def replay_operator(result, tier, seed, smt2):
+    """Model-directed replay for refuted obligations of the codegen_<op> contracts."""
+    import re
+    from kvc import replay as R
+    m = re.match(r'codegen_([a-z]+)', result['name'])
+    if not m or smt2 is None:
+        return None
+    op = m.group(1)
+    if op == 'product':
+        op = 'gp'
+    if op == 'involutions':
+        op = 'reverse'
+    if op in BINARY_OPS:
+        extra = {'cp': ('acp',), 'acp': ('cp',), 'lc': ('rc',), 'rc': ('lc',)}.get(op, ())
+        return R.operator_replay(op, smt2, result.get('model'), binary=True, extra_ops=extra)
+    if op in UNARY_OPS:
+        return R.operator_replay(op, smt2, result.get('model'), binary=False)
+    return None
